@@ -239,19 +239,34 @@ def run_case(task) -> dict:
     obs = {"sc": {**{k: sc[k] for k in ("multifile", "overwrite", "subs", "invalid", "unser", "fault", "pre")}, "inplace": inplace}, "src": src, "idx": idx}
     home = os.getcwd()
     try:
-        # ---- input files: every component that has a file of its own lives in a directory of its own
+        # ---- input files.  Where the file of a component lives and how the document that mentions it spells the
+        # reference varies (what save() must write is always the bare name, next to the main file):
+        #   sibling  <root>/src_<key>/<name>      referred to as ../src_<key>/<name>
+        #   subdir   <holder dir>/parts_<key>/<name>  referred to as parts_<key>/<name>
+        #   abs      <root>/src_<key>/<name>      referred to by its absolute path
+        #   bare     <holder dir>/<name>          referred to as <name>   (only when the name is unique)
+        # (saved in place: everything lives in the output directory itself, bare names)
         subs = {k: (n, kind) for k, n, kind in sc["subs"]}
-        refs = {}
-        # (saved in place: everything lives in the output directory itself)
-        for k, (n, kind) in subs.items():
+        refs, where, style = {}, {}, {}
+        uniq = {n for n in (v[0] for v in subs.values()) if sum(1 for v in subs.values() if v[0] == n) == 1}
+        for k, (n, kind) in sorted(subs.items(), key=lambda kv: len(kv[0])):  # holders before what they hold
             if inplace:
-                refs[k] = real[n]
+                refs[k], where[k], style[k] = real[n], loc[n], "inplace"
                 continue
-            sd = os.path.join(root, "src_" + k)
-            os.makedirs(sd)
-            refs[k] = os.path.join("..", "src_" + k, real[n])
+            holder = k.rsplit(".", 1)[0] if "." in k else None
+            hdir = os.path.dirname(where[holder]) if holder in where else in_dir
+            st = rnd.choice(["sibling", "subdir", "abs"] + (["bare"] if (n in uniq and holder is None) else []))
+            style[k] = st
+            if st == "subdir":
+                where[k] = os.path.join(hdir, "parts_" + k, real[n])
+            elif st == "bare":
+                where[k] = os.path.join(hdir, real[n])
+            else:
+                where[k] = os.path.join(root, "src_" + k, real[n])
+            os.makedirs(os.path.dirname(where[k]), exist_ok=True)
+            refs[k] = where[k] if st == "abs" else os.path.relpath(where[k], hdir)
         for k, (n, kind) in sorted(subs.items(), key=lambda kv: -len(kv[0])):
-            path = loc[n] if inplace else os.path.join(root, "src_" + k, real[n])
+            path = where[k]
             with _real_open(path, "w") as f:
                 if kind == "content":
                     f.write(P_CONTENT)
@@ -346,8 +361,20 @@ def run_case(task) -> dict:
                         for n in sorted(set(before) | set(after)) if before.get(n) != after.get(n)]
         obs["cwd_same"] = os.getcwd() == cwd_dir
         obs["reparses"] = False
+        obs["refs"] = []
+        obs["layout"] = style
         if obs["out"] == "ok":
-            os.chdir(cwd_dir)
+            # what the saved documents say where each component is to be found (read from the saved files themselves)
+            obs["refs"] = _saved_refs(sc, loc, real, names)
+            # the saved path must stand on its own: the directories the config was loaded from are moved away and the
+            # process sits somewhere else before the saved path is parsed again
+            if not inplace:
+                for d in sorted(os.listdir(root)):
+                    if d == "in" or d.startswith("src_"):
+                        os.rename(os.path.join(root, d), os.path.join(root, "gone_" + d))
+            elsewhere = os.path.join(root, "elsewhere")
+            os.makedirs(elsewhere, exist_ok=True)
+            os.chdir(elsewhere)
             try:
                 again = make_parser(nested=bool(sc.get("nested"))).parse_path(target, with_meta=False)
                 got = plain(again)
@@ -368,6 +395,34 @@ def run_case(task) -> dict:
         os.chdir(home)
         shutil.rmtree(root, ignore_errors=True)
     return obs
+
+
+def _saved_refs(sc, loc, real, names) -> list:
+    """[[key, abstract file name]] in the order of sc.subs: the value the saved document holds for `key`, mapped to the
+    abstract name when it is the bare name of a file of the output directory, "?<value>" otherwise"""
+    def load(path):
+        try:
+            with _real_open(path) as f:
+                doc = yaml.safe_load(f.read())
+            return doc if isinstance(doc, dict) else {}
+        except Exception:
+            return {}
+
+    if not sc["multifile"]:
+        return []
+    by_real = {real[f]: f for f in names}
+    subs = {k: n for k, n, _ in sc["subs"]}
+    main = load(loc["main"])
+    out = []
+    for k, n, _ in sc["subs"]:
+        if "." in k:
+            holder, leaf = k.rsplit(".", 1)
+            doc = load(loc[subs[holder]]) if holder in subs else (main.get(holder) if isinstance(main.get(holder), dict) else {})
+        else:
+            doc, leaf = main, k
+        v = doc.get(leaf)
+        out.append([k, by_real[v] if (isinstance(v, str) and v in by_real) else "?" + (v if isinstance(v, str) else type(v).__name__)])
+    return out
 
 
 def _where(ex) -> str:
@@ -540,7 +595,7 @@ def _rest(rep, tier, workers, heap, pool, pending, base):
         part = observations[c:c + chunk]
         f = os.path.join(base, f"trace{c}.json")
         with open(f, "w") as fh:
-            json.dump({"obs": [{k: o[k] for k in ("sc", "pre0", "events", "out", "fired", "fs", "extra", "reparses")} for o in part]}, fh)
+            json.dump({"obs": [{k: o[k] for k in ("sc", "pre0", "events", "out", "fired", "fs", "extra", "reparses", "refs")} for o in part]}, fh)
         tr = tlc_checked(rep, "Trace_Save", "Trace_Save" + SFX, workers=workers, heap=heap, timeout=1500, env={"TRACE_FILE": f})
         if tr.errors or tr.distinct != len(part):
             machinery_failure(PID, f"trace validation failed (distinct={tr.distinct}, expected {len(part)}):\n" + tr.stdout[-3000:])
@@ -594,7 +649,8 @@ def _classify(rep, tier, mc, behaviours, replayed, obs_rej, n_model, n_random):
         sc = o["sc"]
         case = {"scenario": sc, "python": o.get("python"), "outcome": o["out"], "exception": o["exc"], "raised_in": o.get("exc_tb", ""),
                 "events": [[e, f] for e, f, _ in o["events"]], "directory_before": o["pre0"], "directory_after": o["fs"], "extra": o["extra"],
-                "reparses": o["reparses"], "reparse_diff": o.get("reparse_diff"), "failed_clauses": clauses, "source": o["src"]}
+                "reparses": o["reparses"], "reparse_diff": o.get("reparse_diff"), "saved_refs": o.get("refs"), "input_layout": o.get("layout"),
+                "failed_clauses": clauses, "source": o["src"]}
         if "malformed" in clauses:
             machinery_failure(PID, f"the harness did not set up the scenario's directory: {case}")
         mode = "multi" if sc["multifile"] else "single"
@@ -615,6 +671,10 @@ def _classify(rep, tier, mc, behaviours, replayed, obs_rej, n_model, n_random):
             elif c.startswith("ref-reparse-as:"):
                 kind = "sub-main" if any(n == "main" for _, n, _ in sc["subs"]) else "sub-sub"
                 rep.violation(f"multi-name-collision:{kind}", "multi-file save succeeded but two components were written to one file name; the saved path does not re-parse to the configuration", case)
+            elif c == "ref-reparse-refs":
+                bad = [r for r in o["refs"] if r[1].startswith("?")] or o["refs"]
+                rep.violation(f"saved-reference-not-bare-name:{mode}:{bad[0][0]}:{o.get('layout', {}).get(bad[0][0], '?')}",
+                              f"save() succeeded but the saved document refers to component {bad[0][0]} as {bad[0][1][1:]!r} instead of the bare name of the file written next to the main file", case)
             elif c == "ref-reparse-other":
                 rep.violation(f"reparse-other:{mode}:{len(sc['subs'])}subs:{o.get('reparse_diff', '')[:60]}", "save() succeeded but the saved path does not re-parse to the configuration", case)
             elif c == "ref-nso":
